@@ -2,6 +2,7 @@
      types                                       -> message types that carry a status
      x <exp> <act> <code> <desc> <fe> <pe>       -> one outcome line
      r <exp> <act> <lo> <hi> <desc> <fe> <pe>    -> one outcome line per code in [lo,hi)
+     ts <fuel> <k> <exp> <act> <code> <desc> <fe> <pe> -> Client/StatusDriver.v: try_send fuel (k x AClosed ++ [AOutcome (send_for_outcome ...)])
      xf <exp> <act>                              -> the outcome when the reply's payload does not decode (DecFail)
      dt <lo> <hi>                                -> per code: which text defaultText picks (table + index)
      h <negotiated version> <event>...           -> the exchange model (Client/StatusExchange.v, xresults): events
@@ -108,6 +109,15 @@ let () =
        | ["types"] ->
          print_endline (String.concat " " (List.map (fun t -> string_of_int (int_of_n t)) status_types))
        | ["x"; e; a; c; d; f; p] -> one (ni e) (ni a) (ni c) (parse_desc d) (parse_fe f) (parse_pe p)
+       | ["ts"; fuel; k; e; a; c; d; f; p] ->
+         (* the device service's exchange: k attempts that find a closed client, then one completed SendFor exchange *)
+         let s = { st_code = ni c; st_desc = parse_desc d; st_field = parse_fe f; st_param = parse_pe p } in
+         let o = send_for_outcome (ni e) (ni a) (decoded_wf s) in
+         let rec nat_of i = if i <= 0 then O else S (nat_of (i - 1)) in
+         let rec closed i = if i <= 0 then [AOutcome o] else AClosed :: closed (i - 1) in
+         (match try_send (nat_of (int_of_string fuel)) (closed (int_of_string k)) with
+          | TSGaveUp -> print_endline "gaveup"
+          | TSOutcome o' -> Buffer.clear buf; put_outcome o'; print_endline (Buffer.contents buf))
        | ["xf"; e; a] ->
          Buffer.clear buf; put_outcome (send_for_outcome (ni e) (ni a) (fun _ -> DecFail)); print_endline (Buffer.contents buf)
        | ["r"; e; a; lo; hi; d; f; p] ->
